@@ -24,7 +24,7 @@ ModelNext ==
   \E coin \in {RandomElement(1..10)} :
     IF coin <= 3 THEN \E k \in Keys, v \in Vals : GPut(k, v)
     ELSE IF coin <= 6 THEN \E w \in Workers : GGet(w) \/ GGetNone(w) \/ GRelease(w)
-    ELSE IF coin <= 7 THEN (\E w \in Workers, d \in 1..MaxDelay : GRequeue(w, d)) \/ (\E w \in Workers : GGetNone(w) \/ GGet(w))
+    ELSE IF coin <= 7 THEN (\E w \in Workers, d \in 0..MaxDelay : GRequeue(w, d)) \/ (\E w \in Workers : GGetNone(w) \/ GGet(w))
     ELSE IF coin <= 8 THEN \E w \in Workers, d \in 0..1 : GStale(w, d)
     ELSE IF now < MaxNow THEN GTick ELSE \E k \in Keys, v \in Vals : GPut(k, v)
 
